@@ -11,23 +11,24 @@ Variables lower upper : str -> str.
 Variable parse_tree : mapper -> tz -> res (option T * mapper * tz).
 Variable set_label : T -> option str -> T.
 Variable add_comments : T -> list str -> T.
+Variable vl : bool.
 Variables va vk : bool.
 
 Hypothesis parse_tree_suf : forall m z ot m' z',
   parse_tree m z = Ok (ot, m', z') -> suf (z_toks z') (z_toks z).
 Hypothesis upper_idem : forall s, upper (upper s) = upper s.
 
-Notation NR := (nexus_read T lower upper parse_tree set_label add_comments).
-Notation NY := (nexus_yield T lower upper parse_tree set_label add_comments).
-Notation TLR := (treelist_read T lower upper parse_tree set_label add_comments va).
-Notation YFF := (yield_from_files T lower upper parse_tree set_label add_comments).
-Notation RB := (read_blocks T lower upper parse_tree set_label add_comments).
-Notation ROY := (nexus_read_of_yield T lower upper parse_tree set_label add_comments parse_tree_suf upper_idem).
+Notation NR := (nexus_read T lower upper parse_tree set_label add_comments vl).
+Notation NY := (nexus_yield T lower upper parse_tree set_label add_comments vl).
+Notation TLR := (treelist_read T lower upper parse_tree set_label add_comments va vl).
+Notation YFF := (yield_from_files T lower upper parse_tree set_label add_comments vl).
+Notation RB := (read_blocks T lower upper parse_tree set_label add_comments vl).
+Notation ROY := (nexus_read_of_yield T lower upper parse_tree set_label add_comments vl parse_tree_suf upper_idem).
 
 (* the two-implementation theorem, any configuration *)
 Lemma nexus_loops_agree_l : forall (nc : nscfg) (tlf : tl_factory) (ns0 : list str) (d : doc),
   NoSets upper (fst d) ->
-  let Y := y_items_from_stream T lower upper parse_tree set_label add_comments nc false
+  let Y := y_items_from_stream T lower upper parse_tree set_label add_comments vl nc false
                                (doc_fuel d) (core_init nc ns0 d) (regs_init nc) in
   match snd Y with
   | Ok (k', g') =>
@@ -61,7 +62,7 @@ Lemma yield_attached : forall a1 sl fac ns0 d out k' g1',
 Proof.
   intros a1 sl fac ns0 d out k' g1' H. unfold nexus_yield in *.
   assert (I : inv (regs_init (mkNsCfg a1 (FacFixed sl)))) by (unfold inv; simpl; constructor).
-  pose proof (y_items_12 T lower upper parse_tree set_label add_comments a1 sl fac false (doc_fuel d)
+  pose proof (y_items_12 T lower upper parse_tree set_label add_comments vl a1 sl fac false (doc_fuel d)
                 (core_init (mkNsCfg a1 (FacFixed sl)) ns0 d) (regs_init (mkNsCfg a1 (FacFixed sl)))
                 (regs_init (mkNsCfg true fac)) I) as R.
   unfold yrel in R. rewrite H in R. destruct R as [R _].
@@ -89,7 +90,7 @@ Qed.
 Lemma dataset_attached_l : forall (d : doc) ts ns,
   NoSets upper (fst d) ->
   TLR Nexus [] d = Ok (ts, ns) ->
-  exists blocks, dataset_get T lower upper parse_tree set_label add_comments Nexus true d = Ok blocks
+  exists blocks, dataset_get T lower upper parse_tree set_label add_comments vl Nexus true d = Ok blocks
                  /\ concat blocks = ts.
 Proof.
   intros d ts ns N H. unfold treelist_read in H.
@@ -115,7 +116,7 @@ Lemma blocks_vs_list_l : forall (d : doc),
   end.
 Proof.
   intros d N. unfold read_blocks, treelist_read.
-  pose proof (list_vs_blocks T lower upper parse_tree set_label add_comments parse_tree_suf upper_idem
+  pose proof (list_vs_blocks T lower upper parse_tree set_label add_comments vl parse_tree_suf upper_idem
                 (c_ns (cfg_list va)) [] d N) as H.
   change (mkCfg (c_ns (cfg_list va)) TLNew) with (cfg_blocks va) in H.
   change (mkCfg (c_ns (cfg_list va)) TLFixed) with (cfg_list va) in H.
@@ -132,16 +133,16 @@ Lemma offset_selection_nexus_l : forall (d : doc),
   (* the flat list is the concatenation *)
   TLR Nexus [] d = Ok (concat blocks, ns)
   (* Tree.get(c, k) is Python indexing into the collections *)
-  /\ (forall c k, tree_get T lower upper parse_tree set_label add_comments va vk Nexus c k d
+  /\ (forall c k, tree_get T lower upper parse_tree set_label add_comments va vk vl Nexus c k d
                   = select_tree T set_label vk blocks (match c with Some c => c | None => 0 end)
                                 (match k with Some k => k | None => 0 end))
   /\ (forall (c k : nat) b t, nth_error blocks c = Some b -> nth_error b k = Some t ->
-        tree_get T lower upper parse_tree set_label add_comments va vk Nexus (Some (Z.of_nat c)) (Some (Z.of_nat k)) d
+        tree_get T lower upper parse_tree set_label add_comments va vk vl Nexus (Some (Z.of_nat c)) (Some (Z.of_nat k)) d
         = Ok (got_label T set_label vk t)
         /\ nth_error (concat blocks) (length (concat (firstn c blocks)) + k) = Some t)
   (* TreeList.get(collection_offset, tree_offset) is the tail of one collection *)
   /\ (forall c k, (c <> None \/ k <> None) ->
-        treelist_get_off T lower upper parse_tree set_label add_comments va Nexus c k d
+        treelist_get_off T lower upper parse_tree set_label add_comments va vl Nexus c k d
         = select_offsets T blocks (match c with Some c => c | None => 0 end) k).
 Proof.
   intros d N blocks ns H. pose proof (blocks_vs_list_l d N) as HL. rewrite H in HL.
@@ -156,9 +157,9 @@ Qed.
 (* the full parse failed: every offset route fails the same way *)
 Lemma offset_routes_fail_l : forall sch (d : doc) e,
   RB sch (cfg_blocks va) [] d = Err e ->
-  (forall c k, tree_get T lower upper parse_tree set_label add_comments va vk sch c k d = Err e)
+  (forall c k, tree_get T lower upper parse_tree set_label add_comments va vk vl sch c k d = Err e)
   /\ (forall c k, (c <> None \/ k <> None) ->
-        treelist_get_off T lower upper parse_tree set_label add_comments va sch c k d = Err e).
+        treelist_get_off T lower upper parse_tree set_label add_comments va vl sch c k d = Err e).
 Proof.
   intros sch d e H. split.
   - intros. unfold tree_get. rewrite H. reflexivity.
@@ -167,7 +168,7 @@ Qed.
 
 (* TreeArray.read = the iterator's trees from tree_offset on *)
 Lemma treearray_l : forall sch k ns0 d,
-  treearray_read T lower upper parse_tree set_label add_comments sch k ns0 d
+  treearray_read T lower upper parse_tree set_label add_comments vl sch k ns0 d
   = (skipn (Z.to_nat k) (fst (YFF sch ns0 d)), snd (YFF sch ns0 d)).
 Proof. intros. unfold treearray_read. destruct (YFF sch ns0 d). reflexivity. Qed.
 
